@@ -1593,6 +1593,109 @@ theorem fieldTrace_noop (kl : KeyLevel) (l : Level) (scheme : Scheme) (keys : Na
   have : l.k - logn = 0 := by omega
   rw [this]; rfl
 
+/-- L2, ONE BUTTERFLY of the merge tree of `pack_lwe_ciphertexts` on the model (rounding branch: BFV, or CKKS with the NTT round trip
+    around the automorphism): the monomial shift, `sub`, `add_inplace` are exact on phases, the one `apply_galois_inplace` adds ν:
+      phase(even') ≡ packMerge(phase even, phase odd) + ν   (mod q_j),   P·‖ν‖∞ ≤ `c19k_boundStd`. -/
+theorem pack_merge_noisy {kl : KeyLevel} {l : Level} (hl : c04k_LevelOf kl l) {scheme : Scheme}
+    (hT : scheme ≠ .bfv → c19k_TablesOf kl l) (hscheme : scheme = .bfv ∨ scheme = .ckks)
+    {keys : Nat → Option KSKey} {lam : Nat} (hlam : lam + 1 ≤ l.k) {key : KSKey} (hkey : keys (2^(lam+1) + 1) = some key)
+    (hK : c19k_KeyOK kl l.size key) {s : Nat → Int} {e : Nat → Nat → Nat → Int} {G : Nat → Int}
+    (hke : c04k_KeyEq kl l.size key s (c04k_sigma kl.n (2^(lam+1) + 1) s) (e lam) G)
+    {A Be : Nat} (hA : ∀ i, i < l.size → (kl.m i).value ≤ A)
+    (he : ∀ d, d < l.size → ∀ p, p < kl.n → (e lam d p).natAbs ≤ Be)
+    {f : Nat} {ev od : Ct} (hev : c19k_CoefOK l f ev) (hod : c19k_CoefOK l f od) :
+    ∃ r, c19k_packMergeStep kl l scheme keys lam ev od = .ok r ∧ c19k_CoefOK l f r ∧
+      (∀ j, j < l.size → ∀ c, c < 2^l.k →
+        (c19k_phase kl j r s).getD c 0 ≡
+          (packMerge l.k lam (c19k_phase kl j ev s) (c19k_phase kl j od s)).getD c 0
+            + (c19k_mergeNuStd kl l scheme keys e s lam ev od).getD c 0 [ZMOD ((kl.m j).value : Int)]) ∧
+      ∀ c, c < 2^l.k → ((c19k_mergeNuStd kl l scheme keys e s lam ev od).getD c 0).natAbs * kl.c04t_P
+        ≤ c19k_boundStd kl l.size A Be s :=
+  c19k_merge_std hl hT hscheme hlam hkey hK hke hA he hev hod
+
+/-- L2, THE WHOLE `pack_lwe_ciphertexts` on the model after leaf preparation (`c19k_packCt`: merge tree of L layers over 2^L canonical
+    coefficient-form leaves `rlwes[o]`, then `field_trace_inplace(·, L)`; rounding branch).  With Galois keys for the merge elements
+    2^(lam+1)+1 (lam < L) and the trace elements 2^(log2 N − i)+1 (i < log2 N − L), all errors ‖·‖∞ ≤ Be:
+    the result phase, modulo every q_j, has
+      coefficient (N/2^L)·u  ≡ N · (constant coefficient of the phase of leaf reverse_bits(u, L)) + (N/2^L)·Z + T,
+      every other coefficient ≡ T,
+    with integer noise arrays Z (merge tree) and T (trace), P·|Z| ≤ (2^L − 1)·B at the coefficients read, P·‖T‖∞ ≤ (N/2^L − 1)·B,
+    hence P·|(N/2^L)·Z + T| ≤ (N − 1)·B, B = `c19k_boundStd`.  (With leaves = inputs divided by N, N·leaf = input: the
+    documented placement `C19.pack_spec` up to this noise.) -/
+theorem pack_noisy {kl : KeyLevel} {l : Level} (hl : c04k_LevelOf kl l) (hkl : kl.WF) (hd : l.size + 1 ≤ kl.ms.size)
+    {scheme : Scheme} (hT : scheme ≠ .bfv → c19k_TablesOf kl l) (hscheme : scheme = .bfv ∨ scheme = .ckks)
+    {keys : Nat → Option KSKey} {leaves : Nat → R Ct} {L : Nat} (hL : L ≤ l.k) {f : Nat}
+    (hleaves : ∀ o, ∃ ct, leaves o = .ok ct ∧ c19k_CoefOK l f ct)
+    {s : Nat → Int} {em et : Nat → Nat → Nat → Int} {Gm Gt : Nat → Nat → Int}
+    (hmk : ∀ lam, lam < L → ∃ key, keys (2^(lam+1) + 1) = some key ∧ c19k_KeyOK kl l.size key ∧
+      c04k_KeyEq kl l.size key s (c04k_sigma kl.n (2^(lam+1) + 1) s) (em lam) (Gm lam))
+    (htk : ∀ i, i < l.k - L → ∃ key, keys (2^(l.k - i) + 1) = some key ∧ c19k_KeyOK kl l.size key ∧
+      c04k_KeyEq kl l.size key s (c04k_sigma kl.n (2^(l.k - i) + 1) s) (et i) (Gt i))
+    {A Be : Nat} (hA : ∀ i, i < l.size → (kl.m i).value ≤ A)
+    (hem : ∀ lam, lam < L → ∀ d, d < l.size → ∀ p, p < kl.n → (em lam d p).natAbs ≤ Be)
+    (het : ∀ i, i < l.k - L → ∀ d, d < l.size → ∀ p, p < kl.n → (et i d p).natAbs ≤ Be) :
+    ∃ (res : Ct) (Z T : Array Int), c19k_packCt kl l scheme keys leaves L = .ok res ∧ c19k_CtOK l res ∧ res.cf = f ∧
+      (∀ j, j < l.size → ∀ u, u < 2^L →
+        (c19k_phase kl j res s).getD (2^(l.k - L) * u) 0 ≡
+          (2:Int)^l.k * (c19k_phase kl j (c19k_val (leaves (brev L u))) s).getD 0 0
+            + ((2:Int)^(l.k - L) * Z.getD (2^(l.k - L) * u) 0 + T.getD (2^(l.k - L) * u) 0) [ZMOD ((kl.m j).value : Int)]) ∧
+      (∀ j, j < l.size → ∀ c, c < 2^l.k → ¬ 2^(l.k - L) ∣ c →
+        (c19k_phase kl j res s).getD c 0 ≡ T.getD c 0 [ZMOD ((kl.m j).value : Int)]) ∧
+      (∀ u, u < 2^L → (Z.getD (2^(l.k - L) * u) 0).natAbs * kl.c04t_P ≤ (2^L - 1) * c19k_boundStd kl l.size A Be s) ∧
+      (∀ c, c < 2^l.k → (T.getD c 0).natAbs * kl.c04t_P ≤ (2^(l.k - L) - 1) * c19k_boundStd kl l.size A Be s) ∧
+      (∀ u, u < 2^L → ((2:Int)^(l.k - L) * Z.getD (2^(l.k - L) * u) 0 + T.getD (2^(l.k - L) * u) 0).natAbs * kl.c04t_P
+        ≤ (2^l.k - 1) * c19k_boundStd kl l.size A Be s) := by
+  have hms : ∀ lam, lam < L → ∀ ev od, c19k_CoefOK l f ev → c19k_CoefOK l f od →
+      ∃ r, c19k_packMergeStep kl l scheme keys lam ev od = .ok r ∧ c19k_CoefOK l f r ∧
+      (∀ j, j < l.size → ∀ c, c < 2^l.k →
+        (c19k_phase kl j r s).getD c 0 ≡
+          (packMerge l.k lam (c19k_phase kl j ev s) (c19k_phase kl j od s)).getD c 0
+            + (c19k_mergeNuStd kl l scheme keys em s lam ev od).getD c 0 [ZMOD ((kl.m j).value : Int)]) ∧
+      ∀ c, c < 2^l.k → ((c19k_mergeNuStd kl l scheme keys em s lam ev od).getD c 0).natAbs * kl.c04t_P
+        ≤ c19k_boundStd kl l.size A Be s := by
+    intro lam hlam ev od hev hod
+    obtain ⟨key, k1, k2, k3⟩ := hmk lam hlam
+    exact c19k_merge_std hl hT hscheme (by omega) k1 k2 k3 hA (hem lam hlam) hev hod
+  have htree := c19k_tree_generic (kl := kl) (l := l) (s := s) f (c19k_packMergeStep kl l scheme keys) leaves
+    (c19k_mergeNuStd kl l scheme keys em s) L hleaves
+    (fun lam hlam ev od hev hod => by
+      obtain ⟨r, a1, a2, a3, _⟩ := hms lam hlam ev od hev hod
+      exact ⟨r, a1, a2, a3⟩)
+  obtain ⟨merged, m1, m2, m3⟩ := htree L (le_refl _) 0
+  -- the operand of the final trace
+  obtain ⟨ret, hret, hretok, hretn, hretf, hretph⟩ : ∃ ret, ret = (if scheme = .bfv then merged else c19k_toNtt l merged) ∧
+      c19k_CtOK l ret ∧ ret.ntt = (if scheme = .bfv then false else true) ∧ ret.cf = f ∧
+      ∀ j, j < l.size → ∀ c, c < 2^l.k → (c19k_phase kl j ret s).getD c 0 = (c19k_phase kl j merged s).getD c 0 := by
+    by_cases hs : scheme = .bfv
+    · exact ⟨merged, by rw [if_pos hs], m2.1, by rw [if_pos hs]; exact m2.2.1, m2.2.2, fun _ _ _ _ => rfl⟩
+    · obtain ⟨a1, a2, a3, a4⟩ := c19k_toNtt_spec hl hkl hd (hT hs) m2.1 m2.2.1 s
+      exact ⟨c19k_toNtt l merged, by rw [if_neg hs], a1, by rw [if_neg hs]; exact a2, by rw [a3]; exact m2.2.2, a4⟩
+  obtain ⟨res, νs, r1, r2, _, r4, _, r6, r7⟩ := fieldTrace_noisy hl (scheme := scheme) (keys := keys) L hretok
+    (c19k_stdMode_of hscheme hretn) htk hA het
+  set Z := c19k_nodeNoise l.k (c19k_nodeNu (c19k_packMergeStep kl l scheme keys) leaves (c19k_mergeNuStd kl l scheme keys em s)) L 0
+    with hZ
+  have hZb : ∀ u, u < 2^L → (Z.getD (2^(l.k - L) * u) 0).natAbs * kl.c04t_P ≤ (2^L - 1) * c19k_boundStd kl l.size A Be s := by
+    refine c19k_nodeNoise_bound l.k _ kl.c04t_P _ L hL (fun i hi o c hc => ?_) 0
+    obtain ⟨ev, e1, e2, _⟩ := htree i (by omega) o
+    obtain ⟨od, o1, o2, _⟩ := htree i (by omega) (o + 2^i)
+    obtain ⟨_, _, _, _, b⟩ := hms i hi ev od e2 o2
+    unfold c19k_nodeNu
+    rw [e1, o1]
+    exact b c hc
+  have hcoef : ∀ j, j < l.size → _ := fun j hj =>
+    c19k_pack_coeffs l.k L hL ((kl.m j).value : Int) (c19k_phase kl j res s) (c19k_phase kl j ret s) Z
+      (c19k_accNoise l.k νs (l.k - L)) (fun i => c19k_phase kl j (c19k_val (leaves i)) s)
+      (fun c hc => by rw [hretph j hj c hc]; exact m3 j hj c hc) (r6 j hj)
+  refine ⟨res, Z, c19k_accNoise l.k νs (l.k - L), ?_, r2, by rw [r4, hretf], fun j hj => (hcoef j hj).1,
+    fun j hj => (hcoef j hj).2, hZb, r7, fun u hu => ?_⟩
+  · unfold c19k_packCt
+    rw [m1]
+    simp only [bind, Except.bind, ← hret]
+    exact r1
+  · have hlt : 2^(l.k - L) * u < 2^l.k := by
+      rw [← c19_pow_split l.k L hL]; exact Nat.mul_lt_mul_of_pos_left hu (Nat.two_pow_pos _)
+    exact c19k_pack_total_bound l.k L hL _ _ _ _ (hZb u hu) (r7 _ hlt)
+
 /-- NON-VACUITY of the L1 hypotheses: on the key level `c04t_exKL` (N = 2, q = 13, P = 17, t = 5), ciphertext level {13}, the genuine
     Galois key `c19k_exKey` for g = 3 (s = 1 − X, σ_3(s) = 1 + X, e = 1 − X) satisfies `c19k_KeyOK` and the key equation, the example
     ciphertext satisfies `c19k_CtOK`; hence the full trace (logn = 0, one layer) succeeds in BFV and BGV with P·‖N_acc‖∞ ≤ B. -/
